@@ -11,3 +11,10 @@ if ! PYTHONPATH="$(pwd)/.deps" $PY -c "import atheris" 2>/dev/null; then
 fi
 PYTHONPATH="$(pwd)/.deps" $PY -c "import hypothesis, sys; print('setup ok: hypothesis', hypothesis.__version__)"
 mkdir -p evidence replays
+# optional allocator shim (speeds up the deeply recursive generator ~5x under 16-way parallelism)
+if [ ! -f .deps/arena_cache.so ]; then
+    mkdir -p .deps
+    (gcc -O2 -shared -fPIC -o .deps/arena_cache.so vlib/native/arena_cache.c 2>/dev/null \
+      || clang -O2 -shared -fPIC -o .deps/arena_cache.so vlib/native/arena_cache.c 2>/dev/null) \
+      && echo "setup: arena cache shim built" || echo "setup: no C compiler, running without the arena cache shim"
+fi
